@@ -72,7 +72,7 @@ def rand_addr(rng, pool):
 def gen_header(rng, pool, bssid, qos_ok=True, force_ds=None):
     tods, fromds = force_ds if force_ds is not None else rng.choice([(1, 0), (1, 0), (0, 1), (0, 1), (0, 0), (1, 1)])
     subtype = rng.choice([0, 0, 0, 8, 8, 8, 1, 2, 3] + ([9, 10, 11] if qos_ok else []))
-    sta, other = rng.sample(pool, 2)
+    sta, other = rng.sample([a for a in pool if a != bssid], 2)
     if tods and not fromds:
         a1, a2, a3 = bssid, sta, other
     elif fromds and not tods:
@@ -190,7 +190,7 @@ def wpa_case(rng, B, big=False, shadow=False):
     nframes = rng.randint(2, 6)
     for _ in range(nframes):
         force = (0, 1) if shadow else None
-        h = gen_header(rng, pool, bssid, qos_ok=False, force_ds=force)
+        h = gen_header(rng, pool, bssid, qos_ok=True, force_ds=force)
         a1, a2, a3 = addr_fields(h)
         pt, ok = gen_plaintext(rng, big)
         k = rng.random()
